@@ -685,9 +685,7 @@ def dict_key(I, k, node):
     k = I.force(k)
     if isinstance(k, (list, dict, set)):
         raise PyRaise(ExcValue("TypeError", ("unhashable type",)))
-    if isinstance(k, Sym):
-        raise OutsideSubset(f"symbolic dict key in a concrete dict (line {getattr(node, 'lineno', '?')})")
-    return k
+    return k        # a symbolic key is kept by identity; lookups compare with == (path decisions)
 
 
 def make_set(I, items, node):
